@@ -508,9 +508,10 @@ Fixpoint dedup_first (seen l : list string) : list string :=
 
 Definition finish_v2 (s : st) : option result :=
   let rs := rev (rows s) in
-  match rs with
-  | [] => None                                            (* KeyError 'text' in _get_obstypes_dict *)
-  | _ =>
+  match rs, meta_str "time_sys" s with
+  | [], _ => None                                         (* KeyError 'text' in _get_obstypes_dict *)
+  | _, None => None                                       (* KeyError 'time_sys' in _time_system_correction *)
+  | _, Some _ =>
       let keys := dedup_first [] (types_all s) in
       let kept := filter (fun t => has_value (column t rs)) keys in
       let removed := filter (fun t => negb (has_value (column t rs))) keys in
@@ -522,9 +523,10 @@ Definition finish_v2 (s : st) : option result :=
 
 Definition finish_v3 (s : st) : option result :=
   let rs := rev (rows s) in
-  match rs with
-  | [] => None
-  | _ =>
+  match rs, meta_str "time_sys" s with
+  | [], _ => None
+  | _, None => None                                       (* KeyError 'time_sys' in _time_system_correction *)
+  | _, Some _ =>
       let systems := map r_sys rs in
       let st1 := filter (fun kv => mem_str (fst kv) systems) (sys_types s) in
       let keys := types_all s in
